@@ -27,7 +27,7 @@ TEMPL = ["get %s", "get-safe %s", "watch %s", "unwatch %s", "set %s hack", "set-
 def setup_ops():
     ops = [["conn"], ["conn"], ["conn"], C(0, "auth nun pwd"), C(0, "create-db dA tok"), C(0, "create-db dB tok")]
     for db, sfx in (("dA", "1"), ("dB", "2")):
-        ops += [C(0, "use-db %s tok" % db), C(0, "set $$secret S" + sfx), C(0, "set $$user_x T" + sfx), C(0, "set $$permission_$x rw q" + sfx),
+        ops += [C(0, "use-db %s tok" % db), C(0, "set $$secret S" + sfx), C(0, "set $$user_x T" + sfx), C(0, "set $$permission_$x " + ("rwix *|rw q1" if sfx == "1" else "r nothing|rw q2")),
                 C(0, "set secret plain"), C(0, "set $secret dollar"), C(0, "create-user bob pw"), C(0, "set-permissions bob r $$*|rwix *")]
     ops += [C(0, "set $$extra only-in-B")]
     return ops
